@@ -142,6 +142,7 @@ func Formats(c Case) (out Case) {
 	// a case enumerated by FormatsGen.tla carries the bytes of the file (text) and the tokens they were
 	// rendered from (ts): the text is fed to the parser as it is
 	given := str(c, "text")
+	rk := num(cfg, "reader") // how the text is delivered to the parser (readerOf)
 	if _, ok := c["ts"]; !ok {
 		out["ts"], out["m"], out["withTop"] = []string{}, 0, false
 	}
@@ -171,13 +172,13 @@ func Formats(c Case) (out Case) {
 				if given != "" {
 					text = given
 					if str(c, "kind") == "cnf" {
-						pb, err = solver.ParseCNF(strings.NewReader(text))
+						pb, err = solver.ParseCNF(readerOf(text, rk))
 					} else {
-						pb, err = solver.ParseOPB(strings.NewReader(text))
+						pb, err = solver.ParseOPB(readerOf(text, rk))
 					}
 				} else if str(c, "kind") == "cnf" {
 					text = render.DIMACS(n, clauses(), layout())
-					pb, err = solver.ParseCNF(strings.NewReader(text))
+					pb, err = solver.ParseCNF(readerOf(text, rk))
 				} else {
 					lins := make([]render.Lin, len(cons))
 					for i, k := range cons {
@@ -190,7 +191,7 @@ func Formats(c Case) (out Case) {
 						terms[i] = render.Term{W: ow[i], Lit: ol[i]}
 					}
 					text = render.OPB(n, boolean(c, "hasObj"), terms, lins, layout())
-					pb, err = solver.ParseOPB(strings.NewReader(text))
+					pb, err = solver.ParseOPB(readerOf(text, rk))
 				}
 				if err != nil {
 					r["err"], r["msg"] = true, err.Error()
@@ -213,7 +214,7 @@ func Formats(c Case) (out Case) {
 						r["panic"], r["msg"] = true, fmt.Sprint(x)
 					}
 				}()
-				pb, err := explain.ParseCNF(strings.NewReader(text))
+				pb, err := explain.ParseCNF(readerOf(text, rk))
 				if err != nil {
 					r["err"], r["msg"] = true, err.Error()
 					return
